@@ -14,6 +14,7 @@ mod c06;
 mod c07;
 mod c08;
 mod c09;
+mod c10;
 mod c11;
 mod c12;
 mod c13;
@@ -26,7 +27,11 @@ mod c20;
 
 fn main() {
     // panics of the code under test are data, not noise
-    std::panic::set_hook(Box::new(|_| {}));
+    std::panic::set_hook(Box::new(|info| {
+        if let Some(l) = info.location() {
+            *util::LAST_PANIC_AT.lock().unwrap() = format!("{}:{}", l.file(), l.line());
+        }
+    }));
     let args: Vec<String> = std::env::args().skip(1).collect();
     let cmd = args.first().map(|s| s.as_str()).unwrap_or("");
     let rest = &args[args.len().min(1)..];
@@ -46,6 +51,8 @@ fn main() {
         "c18-parse" => c18::parse(rest),
         "c16-queue" => c16::queue(rest),
         "c09-drive" => c09::drive(rest),
+        "c10-drive" => c10::drive(rest),
+        "c10-gen" => c10::vectors(rest),
         "c11-drive" => c11::drive(rest),
         "c12-drive" => c12::drive(rest),
         "c13-drive" => c13::drive(rest),
